@@ -392,7 +392,7 @@ def run(ctx):
     arr.sort(key=lambda c: c['H'] * c['W'])
     ctx.pmap(case_split_array, arr, chunk=1)
     cases = []
-    for n in NCHANS:
+    for n in (NCHANS if thorough else [n for n in NCHANS if n <= 20]):
         for k, a in enumerate(FOFF):
             for sgn in (-1, 1):
                 for j, fch1 in enumerate(FCH1):
@@ -404,17 +404,17 @@ def run(ctx):
     cases.sort(key=lambda c: c['nchans'])
     ctx.pmap(case_split_file, cases, chunk=1)
     return ctx.finish(
-        rule='complete product nchans 4..24 x fchans 1..nchans x shift {default,1,2,3,fchans,fchans+1} x foff (5 '
+        rule='complete product nchans 4..%d x fchans 1..nchans x shift {default,1,2,3,fchans,fchans+1} x foff (5 '
              'magnitudes, both signs) x fch1 (4) on files written by the independent writer, 3 integrations; tchans '
              'modes {default,1,3,4->ValueError} and the consumers (split_fil, distributions) on %s; split_array: all '
              'shapes <= 6x6, tile sizes None/1..dim+1, shifts None/1..tile, 4 trim combinations, invalid shifts.  '
              'Non-trivial = more than one piece/tile expected or a proper sub-band; distinct = distinct parameter '
-             'tuples' % ('the whole box, consumer shifts {default,1,2,3}' if thorough else
+             'tuples' % (24 if thorough else 20, 'the whole box, consumer shifts {default,1,2,3}' if thorough else
                 'the sub-box nchans<=16 x {(foff=+-1 MHz, fch1=100 MHz), (foff=+-BL hi-res, fch1=6000 MHz)}, consumer '
                 'shifts {default,2}'),
         assumptions=['fch1/foff <= 2^36', 'piece frequencies compared within %d ulp against the exact header rationals'
                      % K_F, 'for shifts smaller than the tile the expected windows are [k*shift, min(k*shift+tile, '
                      'size)) until the first window that reaches the end (sliding-window reading of the docstring)',
                      'data compared bit for bit (float32 payload)'],
-        coverage_extra={'bounds': {'nchans': [4, 24], 'foff_mhz': FOFF, 'fch1_mhz': FCH1, 'nints': NINTS,
+        coverage_extra={'bounds': {'nchans': [4, 24 if thorough else 20], 'foff_mhz': FOFF, 'fch1_mhz': FCH1, 'nints': NINTS,
                                    'array_shapes': '1..6 x 1..6'}})
